@@ -11,7 +11,7 @@ open Proto
 def showExc : PySM.Exc → String
   | .py .valueError => "ValueError" | .py .indexError => "IndexError" | .py .assertionError => "AssertionError"
   | .py .other => "Exception" | .stopIteration => "StopIteration" | .typeError => "TypeError"
-  | .attributeError => "AttributeError" | .rngExhausted => "rng-exhausted" | .outOfFuel => "out-of-fuel"
+  | .attributeError => "AttributeError" | .keyError => "KeyError" | .rngExhausted => "rng-exhausted" | .outOfFuel => "out-of-fuel"
 
 def showM {β : Type} (f : β → String) : PySM.M β → String
   | .ok b => "ok " ++ f b
@@ -47,6 +47,36 @@ def showResult : PySM.M (List Catalog) → String
   | .ok cs => "ok:" ++ ";".intercalate (cs.map Drive.C12.showCat)
   | .error e => "err:" ++ showExc e
 end C12
+
+/-! ### C04 `filter`: the structured dtype of a catalog at row level of the hand model (shared with SourceSM/C04F.lean) -/
+namespace C04F
+open CatFilter
+
+/-- the numeric fields of `CSEPCatalog.dtype` as float64 values (`origin_time` is int64, converted) -/
+def fieldOf : String → Option (Event → Rat)
+  | "origin_time" => some (fun e => (e.originTime : Rat))
+  | "latitude" => some (fun e => e.latitude)
+  | "longitude" => some (fun e => e.longitude)
+  | "depth" => some (fun e => e.depth)
+  | "magnitude" => some (fun e => e.magnitude)
+  | _ => none
+
+def aname : Attr → String
+  | .originTime => "origin_time" | .latitude => "latitude" | .longitude => "longitude" | .depth => "depth"
+  | .magnitude => "magnitude"
+
+def oname : Op → String
+  | .gt => ">" | .lt => "<" | .ge => ">=" | .le => "<=" | .eq => "=="
+end C04F
+
+namespace C03
+/-- result of the region lookup of the real run: `ok:<indices>` or `err` (ValueError) -/
+def parseRes? (s : String) : Option (PySM.M (List Nat)) :=
+  if s = "err" then some (.error (.py .valueError))
+  else match s.splitOn ":" with
+    | ["ok", l] => (parseList? String.toNat? l).map .ok
+    | _ => none
+end C03
 
 def handle : List String → Option String
   -- srcsm_simulate_catalog <n> <weights> <sim_fore> <draws>
@@ -133,5 +163,75 @@ def handle : List String → Option String
               ((List.range ny).flatMap (fun r => (List.range nx).map (fun c => (r, c)))))
           (SrcSM.build_bitmask_loop (Poly := Unit) (List.replicate np (), pm) a0 idx idy [] [])
       | _, _, _, _, _, _ => "bad-op")
+  -- srcsm_filter <mode> <events> <stored filters> <statements | none> <float table> <strptime table>
+  --   mode = inplace | stored | new ; statements and tables travel hex-encoded (utf-8), `;`-separated, `-` = empty;
+  --   float table: text=rational pairs (`float(text)` of the real run; a missing text = ValueError), strptime table:
+  --   text=epoch-ms pairs. Result: `<ids kept> | <final self.filters> [| <ids of self after the call>]`
+  | ["srcsm_filter", mode, ev, stored, stmts, ftbl, ttbl] => some (
+      let unhex : String → Option String := fun h =>
+        let cs := h.toList
+        let rec go : List Char → List UInt8 → Option (List UInt8)
+          | [], acc => some acc.reverse
+          | a :: b :: rest, acc =>
+            let d : Char → Option Nat := fun c =>
+              if c.isDigit then some (c.toNat - 48) else if 'a' ≤ c ∧ c ≤ 'f' then some (c.toNat - 87) else none
+            match d a, d b with
+            | some x, some y => go rest (UInt8.ofNat (16 * x + y) :: acc)
+            | _, _ => none
+          | _, _ => none
+        (go cs []).bind (fun bs => String.fromUTF8? (ByteArray.mk bs.toArray))
+      let strs? : String → Option (List String) := fun s => if s = "-" then some [] else (s.splitOn ";").mapM unhex
+      let pairs? : String → Option (List (String × String)) := fun s =>
+        if s = "-" then some [] else (s.splitOn ";").mapM (fun p => match p.splitOn "=" with
+          | [k, v] => (unhex k).map (fun k => (k, v)) | _ => none)
+      match Drive.C04.parseSemi? Drive.C04.parseEvent? ev, strs? stored, (if stmts = "none" then some none else (strs? stmts).map some),
+            pairs? ftbl, pairs? ttbl with
+      | some ev, some stored, some stmts, some ftbl, some ttbl =>
+        let pf : String → PySM.M Rat := fun t => match ftbl.find? (fun p => p.1 == t) with
+          | some p => (match parseRat? p.2 with | some v => .ok v | none => .error (.py .valueError))
+          | none => .error (.py .valueError)
+        let sp : String → PySM.M Int := fun t => match ttbl.find? (fun p => p.1 == t) with
+          | some p => (match parseInt? p.2 with | some v => .ok v | none => .error (.py .valueError))
+          | none => .error (.py .valueError)
+        let hexs : List String → String := fun l => showList (fun (x : String) =>
+          String.join (x.toUTF8.toList.map (fun b => let h := "0123456789abcdef".toList
+            String.ofList [h.getD (b.toNat / 16) '0', h.getD (b.toNat % 16) '0']))) l
+        match mode, stmts with
+        | "inplace", some ss => showM (fun r => s!"{Drive.C04.showEvIds r.2}|{hexs r.1}") (SrcSM.filter_inplace pf sp C04F.fieldOf (stored, ev) ss)
+        | "stored", none => showM (fun r => s!"{Drive.C04.showEvIds r.2}|{hexs r.1}") (SrcSM.filter_stored pf sp C04F.fieldOf (stored, ev))
+        | "new", some ss =>
+          showM (fun r => s!"{Drive.C04.showEvIds r.1.1}|{hexs r.1.2}|{Drive.C04.showEvIds r.2.2.1}|{hexs r.2.1}")
+            (SrcSM.filter_new (Inst := List CatFilter.Event × List String) (CatId := Unit) (Fmt := Unit) (Name := Unit) (Reg := Unit)
+              pf sp (fun d _ _ _ _ f => (d, f)) C04F.fieldOf (stored, ev, (), (), (), ()) ss)
+        | _, _ => "bad-op"
+      | _, _, _, _, _ => "bad-op")
+  -- C03 gridding methods. Rows are (lon, lat, mag); the opaque lookups are the results of the real run (`ok:<indices>` or
+  -- `err`), handed out only when called with exactly the columns of the catalog (else TypeError: a wrong argument shows)
+  | ["srcsm_spatial_counts", lons, lats, ncell, gres] => some (
+      match parseList? parseRat? lons, parseList? parseRat? lats, ncell.toNat?, C03.parseRes? gres with
+      | some lons, some lats, some ncell, some gres =>
+        let rows := List.zip lons (List.zip lats (lats.map (fun _ => (0 : Rat))))
+        showM showNats (SrcSM.spatial_counts (Row := Rat × Rat × Rat) (Region := Nat)
+          (fun a b => if a = lons ∧ b = lats then gres else .error .typeError) (fun n => (n : Int))
+          (fun r => r.1) (fun r => r.2.1) (rows, ncell))
+      | _, _, _, _ => "bad-op")
+  | ["srcsm_magnitude_counts", mags, edges, bres] => some (
+      match parseList? parseRat? mags, parseList? parseRat? edges, parseList? parseInt? bres with
+      | some mags, some edges, some bres =>
+        let rows := mags.map (fun m => ((0 : Rat), (0 : Rat), m))
+        showM showNats (SrcSM.magnitude_counts (Row := Rat × Rat × Rat) (Region := Nat)
+          (fun a b => if a = mags ∧ b = edges then bres else []) (fun r => r.2.2) (rows, 0) edges)
+      | _, _, _ => "bad-op")
+  | ["srcsm_spatial_magnitude_counts", lons, lats, mags, edges, ncell, gres, bres] => some (
+      match parseList? parseRat? lons, parseList? parseRat? lats, parseList? parseRat? mags, parseList? parseRat? edges,
+            ncell.toNat?, C03.parseRes? gres, parseList? parseInt? bres with
+      | some lons, some lats, some mags, some edges, some ncell, some gres, some bres =>
+        let rows := List.zip lons (List.zip lats mags)
+        showM (fun (r : List (List Nat)) => if r.isEmpty then "-" else ";".intercalate (r.map showNats))
+          (SrcSM.spatial_magnitude_counts (Row := Rat × Rat × Rat) (Region := Nat)
+            (fun a b => if a = lons ∧ b = lats then gres else .error .typeError)
+            (fun a b => if a = mags ∧ b = edges then bres else []) (fun n => (n : Int)) (fun _ => some edges)
+            (fun r => r.1) (fun r => r.2.1) (fun r => r.2.2) (rows, ncell) edges)
+      | _, _, _, _, _, _, _ => "bad-op")
   | _ => none
 end Drive.SrcSM
